@@ -320,7 +320,7 @@ Section ReaderProofs.
      a nil map may have been replaced by one the wrapper made *)
   Definition attr_ext (a a' : option (attrs H)) : Prop :=
     match a, a' with
-    | Some x, Some y => a_id x = a_id y /\ incl (a_keys x) (a_keys y) /                        (forall h, a_cache x = Some h -> a_cache y = Some h)
+    | Some x, Some y => a_id x = a_id y /\ incl (a_keys x) (a_keys y) /\ (forall h, a_cache x = Some h -> a_cache y = Some h)
     | None, _ => True
     | Some _, None => False
     end.
@@ -346,14 +346,18 @@ Section ReaderProofs.
      4. an inner error is returned and the wrapper's own state is unchanged;
      5. on success with a well-formed packet: same n, no error, same attributes (up to
         the cache / added keys). *)
-  Definition rtransparentL {T} (L : rlayer T) : Prop :=
-    forall S (inner : reader D H S) a own s,
+  Definition rtransparentL {T} (ok : T -> Prop) (L : rlayer T) : Prop :=
+    forall S (inner : reader D H S) a own s, ok own ->
       let r := snd (inner a s) in
       let R := L S inner a (own, s) in
-      snd (fst R) = fst (inner a s) /      rd (snd R) = rd r /      (cache_ok (ra r) (rd r) -> cache_ok (ra (snd R)) (rd r)) /      (re r <> [] -> fst (fst R) = own /\ re (snd R) = re r) /      (re r = [] -> Dok (rd r) -> cache_ok (ra r) (rd r) ->
+      snd (fst R) = fst (inner a s) /\
+      rd (snd R) = rd r /\
+      (cache_ok (ra r) (rd r) -> cache_ok (ra (snd R)) (rd r)) /\
+      (re r <> [] -> fst (fst R) = own /\ re (snd R) = re r) /\
+      (re r = [] -> Dok (rd r) -> cache_ok (ra r) (rd r) ->
          rn (snd R) = rn r /\ re (snd R) = [] /\ attr_ext (ra r) (ra (snd R))).
 
-  Definition rtransparent (w : rwrapper D H) : Prop := rtransparentL w.
+  Definition rtransparent (w : rwrapper D H) : Prop := rtransparentL (fun _ => True) w.
 
   Definition rcompose {T1 T2} (L2 : rlayer T2) (L1 : rlayer T1) : rlayer (T2 * T1) :=
     fun S inner a st =>
@@ -361,11 +365,12 @@ Section ReaderProofs.
       let '((o2', (o1', s')), r) := L2 _ (L1 S inner) a (o2, (o1, s)) in
       (((o2', o1'), s'), r).
 
-  Lemma rtransparent_compose T1 T2 (L2 : rlayer T2) (L1 : rlayer T1) :
-    rtransparentL L2 -> rtransparentL L1 -> rtransparentL (rcompose L2 L1).
+  Lemma rtransparent_compose T1 T2 ok2 ok1 (L2 : rlayer T2) (L1 : rlayer T1) :
+    rtransparentL ok2 L2 -> rtransparentL ok1 L1 ->
+    rtransparentL (fun o => ok2 (fst o) /\ ok1 (snd o)) (rcompose L2 L1).
   Proof.
-    intros H2 H1 S inner a [o2 o1] s. cbv zeta.
-    specialize (H2 _ (L1 S inner) a o2 (o1, s)). specialize (H1 S inner a o1 s). cbv zeta in H1, H2.
+    intros H2 H1 S inner a [o2 o1] s [Hok2 Hok1]. cbv zeta. cbn [fst snd] in Hok1, Hok2.
+    specialize (H2 _ (L1 S inner) a o2 (o1, s) Hok2). specialize (H1 S inner a o1 s Hok1). cbv zeta in H1, H2.
     unfold rcompose.
     destruct (L2 (T1 * S)%type (L1 S inner) a (o2, (o1, s))) as [[o2' [o1' s']] R] eqn:E2.
     destruct (L1 S inner a (o1, s)) as [[o1a sa] R1] eqn:E1.
@@ -388,54 +393,258 @@ Section ReaderProofs.
 
   Definition rchainL (l : list (rwrapper D H)) : rlayer (list (rs H)) := fun S inner => rbind_outer l inner.
 
-  Lemma rtransparent_nil_gen : forall S (inner : reader D H S) a (own : list (rs H)) s,
-      let r := snd (inner a s) in
-      let R := rchainL [] S inner a (own, s) in
-      snd (fst R) = fst (inner a s) /\ snd R = r /\ fst (fst R) = own.
-  Proof. intros. unfold R, r, rchainL. cbn. destruct (inner a s); auto. Qed.
-
-  Lemma rtransparent_nil : rtransparentL (rchainL []).
-  Proof.
-    intros S inner a own s. cbv zeta.
-    destruct (rtransparent_nil_gen S inner a own s) as (A & B & C). cbv zeta in *.
-    rewrite B. repeat split; auto. apply attr_ext_refl.
-  Qed.
-
-  (* own states of a chain: one per member *)
-  Lemma rtransparent_cons w l : rtransparent w -> rtransparentL (rchainL l) ->
-    forall S (inner : reader D H S) a o sts s,
-      let r := snd (inner a s) in
-      let R := rchainL (w :: l) S inner a (o :: sts, s) in
-      snd (fst R) = fst (inner a s) /      rd (snd R) = rd r /      (cache_ok (ra r) (rd r) -> cache_ok (ra (snd R)) (rd r)) /      (re r <> [] -> fst (fst R) = o :: sts /\ re (snd R) = re r) /      (re r = [] -> Dok (rd r) -> cache_ok (ra r) (rd r) ->
-         rn (snd R) = rn r /\ re (snd R) = [] /\ attr_ext (ra r) (ra (snd R))).
-  Proof.
-    intros Hw Hl S inner a o sts s. cbv zeta.
-    pose proof (rtransparent_compose _ _ w (rchainL l) Hw Hl S inner a (o, sts) s) as Hc. cbv zeta in Hc.
-    unfold rchainL in *. cbn [rbind_outer hd List.tl]. unfold rcompose in Hc.
-    destruct (w (list (rs H) * S)%type (rbind_outer l inner) a (o, (sts, s))) as [[o2' [o1' s']] R] eqn:E.
-    cbn [fst snd] in *.
-    destruct Hc as (A1 & A2 & A3 & A4 & A5).
-    repeat split; auto; try (apply A4; assumption); try (apply A5; assumption).
-    destruct (A4 H0) as [Heq _]. inversion Heq; reflexivity.
-  Qed.
-
+  (* C01 (read side): every chain of transparent reader wrappers is transparent; the own
+     state of a chain is one state per member. [l] is outermost first. *)
   Theorem rchain_transparent_outer (l : list (rwrapper D H)) : Forall rtransparent l ->
-    forall S (inner : reader D H S) a sts s, length sts = length l ->
-      let r := snd (inner a s) in
-      let R := rchainL l S inner a (sts, s) in
-      snd (fst R) = fst (inner a s) /      rd (snd R) = rd r /      (cache_ok (ra r) (rd r) -> cache_ok (ra (snd R)) (rd r)) /      (re r <> [] -> fst (fst R) = sts /\ re (snd R) = re r) /      (re r = [] -> Dok (rd r) -> cache_ok (ra r) (rd r) ->
-         rn (snd R) = rn r /\ re (snd R) = [] /\ attr_ext (ra r) (ra (snd R))).
+    rtransparentL (fun sts => length sts = length l) (rchainL l).
   Proof.
-    intros Hl. assert (HL : rtransparentL (rchainL l)).
-    { induction Hl as [|w l Hw Hl IH]; [apply rtransparent_nil|].
-      intros S inner a own s. cbv zeta.
-      pose proof (rtransparent_compose _ _ w (rchainL l) Hw IH S inner a (hd rs0 own, List.tl own) s) as Hc.
-      cbv zeta in Hc. unfold rchainL in *. cbn [rbind_outer]. unfold rcompose in Hc.
-      destruct (w (list (rs H) * S)%type (rbind_outer l inner) a (hd rs0 own, (List.tl own, s))) as [[o2' [o1' s']] R] eqn:E.
+    induction 1 as [|w l Hw Hl IH].
+    - intros S inner a own s Hlen. cbv zeta. unfold rchainL. cbn [rbind_outer].
+      destruct (inner a s) as [s' r]. cbn [fst snd].
+      repeat split; auto. apply attr_ext_refl.
+    - intros S inner a own s Hlen. destruct own as [|o sts]; [discriminate|].
+      cbn [length] in Hlen. assert (Hlen' : length sts = length l) by lia. cbv zeta.
+      pose proof (rtransparent_compose _ _ _ _ w (rchainL l) Hw IH S inner a (o, sts) s (conj I Hlen')) as Hc.
+      cbv zeta in Hc. unfold rchainL in *. cbn [rbind_outer hd List.tl]. unfold rcompose in Hc.
+      destruct (w (list (rs H) * S)%type (rbind_outer l inner) a (o, (sts, s))) as [[o2' [o1' s']] R] eqn:E.
       cbn [fst snd] in *. destruct Hc as (A1 & A2 & A3 & A4 & A5).
-      repeat split; auto; try (apply A5; assumption).
-      - (* own unchanged: only for well-shaped state lists; not claimed here *)
-        admit.
-      - apply A4; assumption. }
-  Abort.
+      split; [exact A1|]. split; [exact A2|]. split; [exact A3|]. split; [|exact A5].
+      intros He. destruct (A4 He) as [Heq Hre]. split; [|exact Hre].
+      inversion Heq; reflexivity.
+  Qed.
+
+  Theorem rchain_transparent (l : list (rwrapper D H)) : Forall rtransparent l ->
+    rtransparentL (fun sts => length sts = length l) (fun S inner => rchain_bind l inner).
+  Proof.
+    intros Hl. unfold rchain_bind.
+    pose proof (rchain_transparent_outer (rev l) (Forall_rev Hl)) as Hr.
+    intros S inner a own s Hlen. apply Hr. rewrite rev_length; exact Hlen.
+  Qed.
+
+  (* ---- the library reader wrappers ---- *)
+  Lemma rtransparent_id : rtransparent (r_id).
+  Proof.
+    intros S inner a own s _. cbv zeta. unfold r_id.
+    destruct (inner a s) as [s' r]. cbn [fst snd]. repeat split; auto. apply attr_ext_refl.
+  Qed.
+
+  Lemma get_parsed_ok (x : attrs H) d : cache_ok (Some x) d -> Dok d ->
+    exists h x', get_parsed parse x d = Some (h, x') /\ parse d = Some h /\ a_id x' = a_id x /\
+                 a_keys x' = a_keys x /\ a_cache x' = Some h.
+  Proof.
+    intros Hc (h & Hp & _). unfold get_parsed. destruct (a_cache x) as [h0|] eqn:E.
+    - exists h0, x. repeat split; auto. apply (Hc x h0 eq_refl E).
+    - rewrite Hp. exists h, (mkA (a_id x) (Some h) (a_keys x)). repeat split; auto.
+  Qed.
+
+  Lemma get_parsed_cache (x : attrs H) d h x' : cache_ok (Some x) d ->
+    get_parsed parse x d = Some (h, x') -> cache_ok (Some x') d /\ a_id x' = a_id x /\ a_keys x' = a_keys x /\
+      (forall k, a_cache x = Some k -> a_cache x' = Some k).
+  Proof.
+    intros Hc. unfold get_parsed. destruct (a_cache x) as [h0|] eqn:E.
+    - intros Heq; inversion Heq; subst. repeat split; auto. intros k Hk; congruence.
+    - destruct (parse d) as [h1|] eqn:Ep; [|discriminate]. intros Heq; inversion Heq; subst.
+      repeat split; auto; cbn; try discriminate.
+      intros y k Hy Hk. inversion Hy; subst. cbn in Hk. congruence.
+  Qed.
+
+  Lemma cache_ok_fresh (a : option (attrs H)) d : cache_ok a d -> cache_ok (Some (or_fresh a)) d.
+  Proof.
+    intros Hc x h Hx Hh. inversion Hx; subst. destruct a as [y|]; cbn in Hh; [|discriminate].
+    apply (Hc y h eq_refl Hh).
+  Qed.
+
+  Lemma attr_ext_fresh (a : option (attrs H)) (x' : attrs H) :
+    a_id x' = a_id (or_fresh a) -> a_keys x' = a_keys (or_fresh a) ->
+    (forall k, a_cache (or_fresh a) = Some k -> a_cache x' = Some k) -> attr_ext a (Some x').
+  Proof.
+    destruct a as [y|]; cbn; auto. intros H1 H2 H3. repeat split; auto. rewrite H2. intros k Hk; exact Hk.
+  Qed.
+
+  Lemma cache_ok_none d : cache_ok None d.
+  Proof. intros x h Hx; discriminate. Qed.
+
+  Lemma rtransparent_parse_record keep : rtransparent (r_parse_record parse keep).
+  Proof.
+    intros S inner a own s _. cbv zeta. unfold r_parse_record.
+    destruct (inner a s) as [s' [[[n d] at_] e]]. cbn [fst snd rd ra re rn].
+    destruct e as [|e0 e].
+    - destruct (get_parsed parse (or_fresh at_) d) as [[h at']|] eqn:G; cbn [fst snd rd ra re rn].
+      + split; [reflexivity|]. split; [reflexivity|].
+        split; [intros Hc; apply (get_parsed_cache _ _ _ _ (cache_ok_fresh _ _ Hc) G)|].
+        split; [intros Hne; congruence|].
+        intros _ Hd Hc. split; [reflexivity|]. split; [reflexivity|].
+        destruct (get_parsed_cache _ _ _ _ (cache_ok_fresh _ _ Hc) G) as (_ & Hid & Hk & Hcc).
+        apply attr_ext_fresh; auto.
+      + split; [reflexivity|]. split; [reflexivity|]. split; [intros _; apply cache_ok_none|].
+        split; [intros Hne; congruence|].
+        intros _ Hd Hc. destruct (get_parsed_ok _ _ (cache_ok_fresh _ _ Hc) Hd) as (h & x' & G' & _). congruence.
+    - cbn [fst snd rd ra re rn]. split; [reflexivity|]. split; [reflexivity|].
+      split; [intros _; apply cache_ok_none|]. split; [intros _; split; reflexivity|]. intros Hf; discriminate.
+  Qed.
+
+  Lemma rtransparent_twcc_sender sid : rtransparent (r_twcc_sender parse tcc_ext sid).
+  Proof.
+    unfold r_twcc_sender. destruct (sid =? 0); [apply rtransparent_id|].
+    intros S inner a own s _. cbv zeta.
+    destruct (inner a s) as [s' [[[n d] at_] e]]. cbn [fst snd rd ra re rn].
+    destruct e as [|e0 e].
+    - destruct (get_parsed parse (or_fresh at_) d) as [[h at']|] eqn:G; cbn [fst snd rd ra re rn].
+      + assert (Hcase : forall own' res,
+                  (res = (n, d, Some at', @nil Z) \/ (tcc_ext h = Some false /\ own' = own /\ res = (0, d, None, [E_TCCEXT]))) ->
+                  let R := ((own', s'), res) in
+                  snd (fst R) = s' /\ rd (snd R) = d /\
+                  (cache_ok at_ d -> cache_ok (ra (snd R)) d) /\
+                  ((@nil Z) <> [] -> fst (fst R) = own /\ re (snd R) = []) /\
+                  (@nil Z = [] -> Dok d -> cache_ok at_ d -> rn (snd R) = n /\ re (snd R) = [] /\ attr_ext at_ (ra (snd R)))).
+        { intros own' res Hres. cbv zeta. cbn [fst snd].
+          split; [reflexivity|].
+          destruct Hres as [->|(Hf & -> & ->)]; cbn [fst snd rd ra re rn].
+          - split; [reflexivity|].
+            split; [intros Hc; apply (get_parsed_cache _ _ _ _ (cache_ok_fresh _ _ Hc) G)|].
+            split; [intros Hne; congruence|].
+            intros _ Hd Hc. split; [reflexivity|]. split; [reflexivity|].
+            destruct (get_parsed_cache _ _ _ _ (cache_ok_fresh _ _ Hc) G) as (_ & Hid & Hk & Hcc).
+            apply attr_ext_fresh; auto.
+          - split; [reflexivity|]. split; [intros _; apply cache_ok_none|].
+            split; [intros Hne; congruence|].
+            intros _ Hd Hc. exfalso.
+            destruct (get_parsed_ok _ _ (cache_ok_fresh _ _ Hc) Hd) as (h1 & x1 & G1 & Hp1 & _).
+            destruct Hd as (h2 & Hp2 & Hext). rewrite G in G1. inversion G1; subst. congruence. }
+        destruct (tcc_ext h) as [[|]|] eqn:Et.
+        * apply (Hcase _ _ (or_introl eq_refl)).
+        * apply (Hcase own _ (or_intror (conj eq_refl (conj eq_refl eq_refl)))).
+        * apply (Hcase _ _ (or_introl eq_refl)).
+      + split; [reflexivity|]. split; [reflexivity|]. split; [intros _; apply cache_ok_none|].
+        split; [intros Hne; congruence|].
+        intros _ Hd Hc. destruct (get_parsed_ok _ _ (cache_ok_fresh _ _ Hc) Hd) as (h & x' & G' & _). congruence.
+    - cbn [fst snd rd ra re rn]. split; [reflexivity|]. split; [reflexivity|].
+      split; [intros _; apply cache_ok_none|]. split; [intros _; split; reflexivity|]. intros Hf; discriminate.
+  Qed.
+
+  Lemma rtransparent_stats : rtransparent (r_stats parse).
+  Proof.
+    intros S inner a own s _. cbv zeta. unfold r_stats.
+    destruct (inner a s) as [s' [[[n d] at_] e]]. cbn [fst snd rd ra re rn].
+    destruct e as [|e0 e].
+    - destruct (get_parsed parse (or_fresh at_) d) as [[h at']|] eqn:G; cbn [fst snd rd ra re rn].
+      + split; [reflexivity|]. split; [reflexivity|].
+        split.
+        { intros Hc. destruct at_ as [y|]; [|apply cache_ok_none].
+          apply (get_parsed_cache _ _ _ _ (cache_ok_fresh _ _ Hc) G). }
+        split; [intros Hne; congruence|].
+        intros _ Hd Hc. split; [reflexivity|]. split; [reflexivity|].
+        destruct at_ as [y|]; [|exact I].
+        destruct (get_parsed_cache _ _ _ _ (cache_ok_fresh _ _ Hc) G) as (_ & Hid & Hk & Hcc).
+        apply (attr_ext_fresh (Some y)); auto.
+      + split; [reflexivity|]. split; [reflexivity|]. split; [auto|].
+        split; [intros Hne; congruence|].
+        intros _ Hd Hc. split; [reflexivity|]. split; [reflexivity|]. apply attr_ext_refl.
+    - cbn [fst snd rd ra re rn]. split; [reflexivity|]. split; [reflexivity|].
+      split; [intros _; apply cache_ok_none|]. split; [intros _; split; reflexivity|]. intros Hf; discriminate.
+  Qed.
+
+  Lemma rtransparent_stats_rtcp : rtransparent (r_stats_rtcp parse).
+  Proof.
+    intros S inner a own s _. cbv zeta. unfold r_stats_rtcp.
+    destruct (inner a s) as [s' [[[n d] at_] e]]. cbn [fst snd rd ra re rn].
+    destruct e as [|e0 e].
+    - set (same := match a, at_ with Some ai, Some ar => a_id ai =? a_id ar | _, _ => false end).
+      destruct same eqn:Esame.
+      + destruct (get_parsed parse (or_fresh at_) d) as [[h at']|] eqn:G; cbn [fst snd rd ra re rn].
+        * split; [reflexivity|]. split; [reflexivity|].
+          split; [intros Hc; apply (get_parsed_cache _ _ _ _ (cache_ok_fresh _ _ Hc) G)|].
+          split; [intros Hne; congruence|].
+          intros _ Hd Hc. split; [reflexivity|]. split; [reflexivity|].
+          destruct (get_parsed_cache _ _ _ _ (cache_ok_fresh _ _ Hc) G) as (_ & Hid & Hk & Hcc).
+          apply attr_ext_fresh; auto.
+        * split; [reflexivity|]. split; [reflexivity|]. split; [auto|].
+          split; [intros Hne; congruence|].
+          intros _ Hd Hc. split; [reflexivity|]. split; [reflexivity|]. apply attr_ext_refl.
+      + destruct (get_parsed parse (or_fresh a) d) as [[h at']|] eqn:G; cbn [fst snd rd ra re rn];
+          (split; [reflexivity|]; split; [reflexivity|]; split; [auto|];
+           split; [intros Hne; congruence|];
+           intros _ Hd Hc; split; [reflexivity|]; split; [reflexivity|]; apply attr_ext_refl).
+    - cbn [fst snd rd ra re rn]. split; [reflexivity|]. split; [reflexivity|].
+      split; [auto|]. split; [intros _; split; reflexivity|]. intros Hf; discriminate.
+  Qed.
+
+  Variable has_report : rs H -> H -> bool.
+  Lemma rtransparent_rtpfb : rtransparent (r_rtpfb parse has_report).
+  Proof.
+    intros S inner a own s _. cbv zeta. unfold r_rtpfb.
+    destruct (inner a s) as [s' [[[n d] at_] e]]. cbn [fst snd rd ra re rn].
+    destruct e as [|e0 e].
+    - destruct (get_parsed parse (or_fresh at_) d) as [[h at']|] eqn:G; cbn [fst snd rd ra re rn].
+      + split; [reflexivity|]. split; [reflexivity|].
+        split.
+        { intros Hc. destruct (get_parsed_cache _ _ _ _ (cache_ok_fresh _ _ Hc) G) as (Hc' & _).
+          destruct (has_report own h); [|exact Hc'].
+          intros x k Hx Hk. inversion Hx; subst. cbn in Hk. apply (Hc' at' k eq_refl Hk). }
+        split; [intros Hne; congruence|].
+        intros _ Hd Hc. split; [reflexivity|]. split; [reflexivity|].
+        destruct (get_parsed_cache _ _ _ _ (cache_ok_fresh _ _ Hc) G) as (_ & Hid & Hk & Hcc).
+        destruct (has_report own h); [|apply attr_ext_fresh; auto].
+        destruct at_ as [y|]; cbn; auto. cbn in Hid, Hk, Hcc. repeat split; auto.
+        rewrite Hk. intros z Hz; right; exact Hz.
+      + split; [reflexivity|]. split; [reflexivity|].
+        split; [intros Hc; apply cache_ok_fresh; exact Hc|].
+        split; [intros Hne; congruence|].
+        intros _ Hd Hc. destruct (get_parsed_ok _ _ (cache_ok_fresh _ _ Hc) Hd) as (h & x' & G' & _). congruence.
+    - cbn [fst snd rd ra re rn]. split; [reflexivity|]. split; [reflexivity|].
+      split; [auto|]. split; [intros _; split; reflexivity|]. intros Hf; discriminate.
+  Qed.
 End ReaderProofs.
+
+(* ========================================================================= *)
+(* Close / Unbind *)
+
+Lemma close_all_length l : length (fst (close_all l)) = length l /\ length (snd (close_all l)) = length l.
+Proof.
+  induction l as [|m l [IH1 IH2]]; [auto|]. cbn. destruct (close_all l) as [l' es]. cbn in *. lia.
+Qed.
+
+(* every member is closed exactly once, nothing else about it changes *)
+Lemma close_all_once l : forall i m, nth_error l i = Some m ->
+  exists m', nth_error (fst (close_all l)) i = Some m' /\ m_closed m' = m_closed m + 1 /\
+             m_unbound_local m' = m_unbound_local m /\ m_unbound_remote m' = m_unbound_remote m /\
+             nth_error (snd (close_all l)) i = Some (m_close_err m).
+Proof.
+  induction l as [|x l IH]; intros [|i] m Hm; try discriminate; cbn in *.
+  - inversion Hm; subst. destruct (close_all l) as [l' es]. cbn. eexists; repeat split.
+  - destruct (IH i m Hm) as (m' & H1 & H2). destruct (close_all l) as [l' es]. cbn in *. eauto.
+Qed.
+
+Lemma drop_nil_in l e : In (Some e) l <-> In e (drop_nil l).
+Proof.
+  induction l as [|[x|] l IH]; cbn; [tauto| |].
+  - split; intros [Hx|Hx]; [inversion Hx; auto|right; apply IH; auto|left; congruence|right; apply IH; auto].
+  - split; [intros [Hx|Hx]; [discriminate|apply IH; auto]|intros Hx; right; apply IH; auto].
+Qed.
+
+Lemma err_is_multi l t : err_is (EMulti l) t = existsb (fun x => err_is x t) l.
+Proof. induction l as [|x l IH]; cbn in *; [reflexivity|]. rewrite <- IH. reflexivity. Qed.
+
+(* flattenErrs: nil iff every error is nil; otherwise errors.Is finds exactly what
+   errors.Is finds in one of the members' errors *)
+Lemma flatten_errs_none l : flatten_errs l = None <-> Forall (fun e => e = None) l.
+Proof.
+  unfold flatten_errs. induction l as [|[x|] l IH]; cbn.
+  - split; auto.
+  - split; [discriminate|intros Hf; inversion Hf; discriminate].
+  - destruct (drop_nil l) eqn:E.
+    + split; [intros _; constructor; auto; apply IH; reflexivity|reflexivity].
+    + split; [discriminate|intros Hf; inversion Hf; subst; apply IH in H2; discriminate].
+Qed.
+
+Lemma flatten_errs_is l t :
+  (exists e, flatten_errs l = Some e /\ err_is e t = true) <->
+  (exists e, In (Some e) l /\ err_is e t = true).
+Proof.
+  unfold flatten_errs. split.
+  - intros (e & He & Ht). destruct (drop_nil l) as [|x tl] eqn:E; [discriminate|].
+    inversion He; subst. rewrite err_is_multi in Ht. apply existsb_exists in Ht as (y & Hy & Hyt).
+    exists y. split; [apply drop_nil_in; rewrite E; exact Hy|exact Hyt].
+  - intros (e & He & Ht). apply drop_nil_in in He. destruct (drop_nil l) as [|x tl] eqn:E; [destruct He|].
+    exists (EMulti (x :: tl)). split; [reflexivity|]. rewrite err_is_multi. apply existsb_exists. eauto.
+Qed.
